@@ -183,10 +183,10 @@ inline void sha1::get_digest(digest_type digest)
 
     // append length of message (before pre-processing) 
     // as a 64-bit big-endian integer
-    process_byte(0);
-    process_byte(0);
-    process_byte(0);
-    process_byte(0);
+    process_byte( static_cast<unsigned char>((bit_count>>56) & 0xFF));
+    process_byte( static_cast<unsigned char>((bit_count>>48) & 0xFF));
+    process_byte( static_cast<unsigned char>((bit_count>>40) & 0xFF));
+    process_byte( static_cast<unsigned char>((bit_count>>32) & 0xFF));
     process_byte( static_cast<unsigned char>((bit_count>>24) & 0xFF));
     process_byte( static_cast<unsigned char>((bit_count>>16) & 0xFF));
     process_byte( static_cast<unsigned char>((bit_count>>8 ) & 0xFF));
